@@ -7,6 +7,7 @@ import (
 	"encoding/json"
 	"fmt"
 	"net"
+	"os"
 	"strings"
 	"sync"
 	"sync/atomic"
@@ -603,7 +604,7 @@ var ignore = []string{
 	"github.com/henrylee2cn/goutil/coarsetime.",
 	"github.com/xtaci/kcp-go/v5.(*TimedSched)",
 	"github.com/henrylee2cn/goutil/pool.(*GoPool).cleaner",
-	"github.com/henrylee2cn/goutil/pool.(*GoPool).Start",
+	"github.com/henrylee2cn/goutil/pool.(*GoPool).start",
 	"os/signal.",
 	"github.com/henrylee2cn/erpc/v6/plugin/overloader.(*qpsLimiter).startTicker",
 	"verifharness/quiesce.",
@@ -649,6 +650,9 @@ func Settle(timeout time.Duration, samples int, extra func() uint64) (bool, []qu
 				ok = false
 			}
 			if !ok {
+				if os.Getenv("PXY_DEBUG") != "" {
+					fmt.Fprintf(os.Stderr, "settle: active g%s [%s] %v\n", g.ID, g.State, g.Frames)
+				}
 				break
 			}
 			top := g.Frames
